@@ -20,6 +20,7 @@ from __future__ import annotations
 
 import ast
 import itertools
+import threading
 from fractions import Fraction
 
 from . import e2_formula as F
@@ -84,6 +85,12 @@ def _guarded(op, a, b):
 
 
 def s_bin(op, a, b):
+    if op in ("&", "|"):
+        if isinstance(a, bool) and isinstance(b, bool):
+            return (a and b) if op == "&" else (a or b)
+        if isinstance(a, int) and isinstance(b, int):
+            return (a & b) if op == "&" else (a | b)
+        raise Unsupported(f"bit operator {op} on symbolic values")
     ia = isinstance(a, int) and not isinstance(a, bool)
     ib = isinstance(b, int) and not isinstance(b, bool)
     if isinstance(a, bool):
@@ -181,10 +188,15 @@ def _prod(shape):
 class NDArr:
     """n-d array of scalar entries (int / Rat) with numpy's view semantics for basic indexing, transposition and axis swaps"""
 
-    def __init__(self, store, shape, ix):
+    def __init__(self, store, shape, ix, kind=None):
         self.st = store
         self.shape = tuple(shape)
         self.ix = ix
+        self.kind = kind         # "bool" for arrays created with dtype bool (matters for empty masks and np.issubdtype)
+
+    def is_bool(self):
+        fl = self.flat()
+        return self.kind == "bool" or (bool(fl) and all(isinstance(x, bool) for x in fl))
 
     # ---- construction
     @staticmethod
@@ -219,7 +231,9 @@ class NDArr:
         return [d[i] for i in self.ix]
 
     def copy(self):
-        return NDArr.new(self.shape, self.flat())
+        r = NDArr.new(self.shape, self.flat())
+        r.kind = self.kind
+        return r
 
     def item(self, *idx):
         pos = 0
@@ -267,7 +281,7 @@ class NDArr:
         """numpy indexing: ints, slices, None, Ellipsis (views); integer arrays used point-wise on all axes (copy)"""
         if not isinstance(key, tuple):
             key = (key,)
-        key = tuple(_index_value(k) for k in key)
+        key = tuple(_mask_positions(_index_value(k)) for k in key)
         adv = [k for k in key if isinstance(k, (NDArr, list))]
         if len(adv) > 1:
             return self._fancy(key), None
@@ -323,23 +337,27 @@ class NDArr:
         return NDArr(self.st, newshape, ix), None
 
     def _fancy(self, key):
-        lists = []
+        """one integer index array per axis, broadcast against each other (np.ix_ meshes, `A[i, i]`)"""
+        arrs = []
         for k in key:
-            if isinstance(k, NDArr):
-                if k.ndim != 1:
-                    raise Unsupported("advanced indexing with a non 1-d index array")
-                lists.append([_as_int(x) for x in k.flat()])
-            elif isinstance(k, list):
-                lists.append([_as_int(x) for x in k])
-            else:
+            if isinstance(k, list):
+                k = to_array(k)
+            if not isinstance(k, NDArr):
                 raise Unsupported("mixed basic/advanced indexing")
-        if len(lists) != self.ndim or len({len(x) for x in lists}) != 1:
-            raise Unsupported("advanced indexing: one index array per axis of equal length expected")
+            arrs.append(k)
+        if len(arrs) != self.ndim:
+            raise Unsupported("advanced indexing: one index array per axis expected")
+        shape = ()
+        for k in arrs:
+            shape = _broadcast(shape, k.shape)
+        cols = [[_as_int(x) for x in _bc_entries(k, shape)] for k in arrs]
+        for c, n in zip(cols, self.shape):
+            for p in c:
+                if not -n <= p < n:
+                    raise PyRaise("IndexError", f"index {p} out of range for axis of size {n}")
         strides = [_prod(self.shape[a + 1:]) for a in range(self.ndim)]
-        ix = []
-        for pt in zip(*lists):
-            ix.append(self.ix[sum((p % n) * s for p, n, s in zip(pt, self.shape, strides))])
-        return NDArr(self.st, (len(ix),), ix)      # used as a store target or copied by the caller
+        ix = [self.ix[sum((p % n) * s for p, n, s in zip(pt, self.shape, strides))] for pt in zip(*cols)] if _prod(shape) else []
+        return NDArr(self.st, shape, ix)      # used as a store target or copied by the caller
 
     # ---- python-side conveniences for the expected side of a rule
     def __getitem__(self, key):
@@ -392,6 +410,22 @@ def _index_value(k):
         return _as_int(k)
     if isinstance(k, tuple):
         raise Unsupported("nested index tuple")
+    return k
+
+
+def _mask_positions(k):
+    """a boolean mask used as an index selects the positions that are True (an empty mask selects nothing)"""
+    if isinstance(k, NDArr) and k.ndim == 1 and (k.is_bool() or k.size == 0):
+        fl = k.flat()
+        if k.size and not all(isinstance(x, bool) for x in fl):
+            raise Unsupported("boolean mask with undecided entries")
+        if k.size == 0:
+            return NDArr.new((0,), [])
+        pos = [i for i, x in enumerate(fl) if x]
+        return NDArr.new((len(pos),), pos)
+    if isinstance(k, list) and k and all(isinstance(x, bool) for x in k):
+        pos = [i for i, x in enumerate(k) if x]
+        return NDArr.new((len(pos),), pos)
     return k
 
 
@@ -552,9 +586,9 @@ class LU:
         self.mat = mat
         self._inv = inv
 
-    def inv(self):
+    def inv(self, it=None):
         if self._inv is None:
-            self._inv = inverse(self.mat)
+            self._inv = it.inverse_of(self.mat) if it is not None else inverse(self.mat)
         return self._inv
 
 
@@ -569,6 +603,7 @@ class Obj:
         self.overrides = {}      # method name or 'Class.method' -> python callable(interp, args, kwargs)
         self.absent = set()      # attributes the rule knows not to exist in this configuration (reading one is a genuine AttributeError)
         self.attr_log = []       # (seq, name, value)
+        self.complete = False    # built by the code's own constructor: the attributes are exactly those it has assigned
 
     def __repr__(self):
         return f"<{self.label}>"
@@ -597,8 +632,9 @@ class Bound:
 
 
 class Builtin:
-    def __init__(self, name, fn):
+    def __init__(self, name, fn, lenient=False):
         self.name, self.fn = name, fn
+        self.lenient = lenient   # accepts values bound under an undecided test (warnings.warn, print): nothing flows back
 
     def __repr__(self):
         return f"<builtin {self.name}>"
@@ -654,8 +690,65 @@ class SuperProxy:
 
 
 class PyIter:
+    """a Python iterator of the interpreted program (iter(), zip(), enumerate(), generator expressions, generator functions): consumed
+    lazily, item by item, as CPython would"""
+
     def __init__(self, it):
         self.it = it
+
+
+class GenDriver:
+    """a generator function of the interpreted program.  Its body runs in a thread of its own that is resumed for one `yield` at a time
+    (never concurrently with the consumer), so side effects interleave exactly as in CPython; send() is supported"""
+
+    def __init__(self, interp, func, frame):
+        self.interp, self.func, self.frame = interp, func, frame
+        self.req, self.resp = threading.Semaphore(0), threading.Semaphore(0)
+        self.started = self.done = False
+        self.exc = None
+        self.value = self.sent = self.ret = None
+
+    def _run(self):
+        self.req.acquire()
+        try:
+            self.interp.exec_block(self.func.node.body, self.frame)
+        except _Return as e:
+            self.ret = e.value
+        except BaseException as e:       # handed to the consumer
+            self.exc = e
+        self.done = True
+        self.resp.release()
+
+    def emit(self, value):
+        self.value = value
+        self.resp.release()
+        self.req.acquire()
+        v, self.sent = self.sent, None
+        return v
+
+    def send(self, value):
+        if self.done:
+            raise StopIteration
+        if not self.started:
+            if value is not None:
+                raise PyRaise("TypeError", "can't send non-None value to a just-started generator")
+            self.started = True
+            threading.Thread(target=self._run, daemon=True).start()
+        self.sent = value
+        self.req.release()
+        self.resp.acquire()
+        if self.exc is not None:
+            e, self.exc = self.exc, None
+            raise e
+        if self.done:
+            raise StopIteration
+        return self.value
+
+    def __iter__(self):
+        return self
+
+    def __next__(self):
+        return self.send(None)
 
 
 class PyRaise(Exception):
@@ -700,9 +793,11 @@ class ModuleEnv:
             self._scan(self.mod.tree.body)
 
     def _scan(self, body):
+        """module-level bindings in source order; a name bound several times (`f = decorate(f)` after `def f`) keeps every definition: they
+        are evaluated in order on the first look-up, each seeing its predecessor"""
         for st in body:
             if isinstance(st, ast.FunctionDef):
-                self.pending[st.name] = st
+                self.pending.setdefault(st.name, []).append(st)
             elif isinstance(st, ast.ClassDef):
                 self.globals[st.name] = ClassRef(self, st)
             elif isinstance(st, ast.Import):
@@ -714,13 +809,27 @@ class ModuleEnv:
                         self.globals[top] = self._ext(top)
             elif isinstance(st, ast.ImportFrom):
                 for al in st.names:
-                    self.pending[al.asname or al.name] = ("from", st.level, st.module or "", al.name)
+                    self.pending.setdefault(al.asname or al.name, []).append(("from", st.level, st.module or "", al.name))
             elif isinstance(st, ast.Assign) and all(isinstance(t, ast.Name) for t in st.targets):
                 for t in st.targets:
-                    self.pending[t.id] = st.value
+                    self.pending.setdefault(t.id, []).append(st.value)
             elif isinstance(st, ast.AnnAssign) and isinstance(st.target, ast.Name) and st.value is not None:
-                self.pending[st.target.id] = st.value
-            elif isinstance(st, (ast.Try, ast.If)):
+                self.pending.setdefault(st.target.id, []).append(st.value)
+            elif isinstance(st, ast.If):
+                # a module-level switch (`if HAVE_NUMBA:`): the arm is chosen by the value of the test when it is a plain constant flag
+                t = None
+                try:
+                    t = self.interp.truth(self.interp.eval_in_module(self, st.test))
+                except (Unsupported, PyRaise):
+                    t = None
+                if t is True:
+                    self._scan(st.body)
+                elif t is False:
+                    self._scan(st.orelse)
+                else:
+                    self._scan(st.body)
+                    self._scan(st.orelse)
+            elif isinstance(st, ast.Try):
                 self._scan(st.body)
                 self._scan(getattr(st, "orelse", []))
 
@@ -744,7 +853,13 @@ class ModuleEnv:
             return self.globals[name]
         if name not in self.pending:
             return _MISSING
-        p = self.pending.pop(name)
+        v = _MISSING
+        for p in self.pending.pop(name):
+            v = self._define(name, p)
+            self.globals[name] = v
+        return v
+
+    def _define(self, name, p):
         if isinstance(p, ast.FunctionDef):
             v = self.interp.make_func(p, self, None, None)
         elif isinstance(p, tuple):
@@ -771,13 +886,13 @@ class ModuleEnv:
                 v = self.interp.external(full + "." + nm)
         else:
             v = self.interp.eval_in_module(self, p)
-        self.globals[name] = v
         return v
 
 
 class Frame:
-    def __init__(self, module, locals_, parent=None, cls=None, selfobj=None, func=None):
+    def __init__(self, module, locals_, parent=None, cls=None, selfobj=None, func=None, gen=None):
         self.module, self.locals, self.parent, self.cls, self.selfobj, self.func = module, locals_, parent, cls, selfobj, func
+        self.gen = gen           # GenDriver when the frame belongs to a generator function
 
 
 # --------------------------------------------------------------------------------------------------------------------- interpreter
@@ -794,6 +909,11 @@ class Interp:
         self.guards = []
         self.calls = []                      # (seq, description, args, kwargs, result) of overridden / stubbed / opaque / interpreted calls
         self.depth = 0
+        self.overrides = {}                  # 'Class.method' / 'method' -> python callable(interp, args, kwargs), for every instance
+        self.nonzero = set()                 # symbols the rule declares non-zero (a time step): a monomial in them is true
+        self.assume_cmp = None               # python callable(op, a, b) -> bool / NDArr / None deciding comparisons on symbolic data
+        self.named_inv = []                  # [(matrix, inverse)] inverses the rule wants to keep as symbols (A^-1 of the Newmark matrix)
+        self.trace = []                      # names of the interpreted functions in call order
 
     # ---- infrastructure
     def module(self, rel):
@@ -812,13 +932,21 @@ class Interp:
         if name in self.stubs:
             return Builtin(name, self.stubs[name])
         if name in EXTERNALS:
-            return Builtin(name, EXTERNALS[name])
+            return Builtin(name, EXTERNALS[name], lenient=name in LENIENT)
         last = name.rsplit(".", 1)[-1]
         if last in self.stubs:
             return Builtin(name, self.stubs[last])
         if any(k.startswith(name + ".") for k in EXTERNALS) or any(k.startswith(name + ".") for k in self.stubs):
             return ModRef(name)
         return Opaque(name)
+
+    def inverse_of(self, a):
+        """inverse of a square matrix: the symbols the rule registered for it (self.named_inv), else entry by entry"""
+        a = to_array(a)
+        for m, inv in self.named_inv:
+            if arr_equal(m, a):
+                return inv
+        return inverse(a)
 
     def eval_in_module(self, module, node):
         return self.eval(node, Frame(module, module.globals))
@@ -884,6 +1012,8 @@ class Interp:
 
     # ---- calls
     def call(self, f, args, kwargs, node):
+        if isinstance(f, Builtin) and f.lenient:
+            return f.fn(self, list(args), dict(kwargs))
         for x in list(args) + list(kwargs.values()):
             if isinstance(x, Und):
                 raise Unsupported(f"a value that depends on an undecided test is passed to a call ({x.desc})")
@@ -914,24 +1044,54 @@ class Interp:
             self.calls.append((self.tick(), f.name, list(args), dict(kwargs), r))
             return r
         if isinstance(f, ClassRef):
-            raise Unsupported(f"instantiation of {f.name}")
+            return self.instantiate(f, *args, **kwargs)
+        if isinstance(f, Obj) and f.cls is not None:
+            c, fn = f.cls.find(self, "__call__")
+            if fn is not None:
+                return self.call(Bound(f, self.make_func(fn, c.module, None, c)), args, kwargs, node)
+        if isinstance(f, Und):
+            raise Unsupported(f"call of a value that depends on an undecided test ({f.desc})")
         raise PyRaise("TypeError", f"object {f!r} is not callable")
+
+    def instantiate(self, cls, *args, **kwargs):
+        """cls(*args, **kwargs): a fresh instance initialised by the class's own __init__"""
+        if self.guards:
+            raise Unsupported("instantiation under an undecided test")
+        for b in cls.node.bases:
+            if not isinstance(self.eval_in_module(cls.module, b), ClassRef):
+                raise Unsupported(f"instantiation of {cls.name}: base class {ast.unparse(b)} is outside the repository")
+        obj = Obj(cls, f"{cls.name} instance")
+        obj.complete = True
+        c, fn = cls.find(self, "__init__")
+        if fn is not None:
+            self.call(Bound(obj, self.make_func(fn, c.module, None, c)), list(args), dict(kwargs), None)
+        elif args or kwargs:
+            raise PyRaise("TypeError", f"{cls.name}() takes no arguments")
+        return obj
 
     def _override(self, obj, func):
         if not isinstance(obj, Obj):
             return None
         q = f"{func.cls.name}.{func.name}" if func.cls else func.name
-        return obj.overrides.get(q) or obj.overrides.get(func.name)
+        return obj.overrides.get(q) or obj.overrides.get(func.name) or self.overrides.get(q) or self.overrides.get(func.name)
 
     def call_func(self, func, args, kwargs, selfobj):
-        if any(isinstance(n, (ast.Yield, ast.YieldFrom)) for n in _walk_own(func.node)):
-            raise Unsupported(f"generator function {func.name}")
         env = self.bind(func, args, kwargs)
         q = getattr(func.node, "_vqual", None)
         if q:
             self.ctx.src.funcs_consulted.add(f"{func.module.rel}:{q}")
         if selfobj is None and func.cls is not None and args:
             selfobj = args[0]
+        self.trace.append(func.name)
+        is_gen = getattr(func.node, "_c17_gen", None)
+        if is_gen is None:
+            is_gen = func.node._c17_gen = any(isinstance(n, (ast.Yield, ast.YieldFrom)) for n in _walk_own(func.node))
+        if is_gen:
+            if self.guards:
+                raise Unsupported("generator created under an undecided test")
+            fr = Frame(func.module, env, func.closure, func.cls, selfobj, func)
+            fr.gen = GenDriver(self, func, fr)
+            return PyIter(fr.gen)
         fr = Frame(func.module, env, func.closure, func.cls, selfobj, func)
         self.depth += 1
         if self.depth > 40:
@@ -955,9 +1115,17 @@ class Interp:
                 c, fn = v.cls.find(self, name)
                 if fn is not None:
                     return Bound(v, self.make_func(fn, c.module, None, c))
+                for c in v.cls.mro(self):
+                    for st in c.node.body:
+                        if isinstance(st, ast.Assign) and any(isinstance(t, ast.Name) and t.id == name for t in st.targets):
+                            return self.eval_in_module(c.module, st.value)
             if name in v.overrides:
                 return Builtin(name, v.overrides[name])
-            if name in v.absent or (v.cls is not None and not self._ever_assigned(v.cls, name)):
+            if name == "__class__" and v.cls is not None:
+                return v.cls
+            if name == "__dict__":
+                return v.attrs
+            if v.complete or name in v.absent or (v.cls is not None and not self._ever_assigned(v.cls, name)):
                 raise PyRaise("AttributeError", f"{v.label} has no attribute {name}")
             raise PyRaise("AttributeError", f"{v.label} has no attribute {name} (not configured by the rule)", genuine=False)
         if isinstance(v, SuperProxy):
@@ -988,6 +1156,8 @@ class Interp:
                 return v.size
             if name == "real":
                 return v
+            if name == "dtype":
+                return "bool" if v.is_bool() else ("int" if v.size and all(isinstance(x, int) for x in v.flat()) else "float")
             if name in ARRAY_METHODS:
                 return Builtin("ndarray." + name, lambda it, a, k, _m=ARRAY_METHODS[name], _v=v: _m(it, _v, a, k))
             raise Unsupported(f"ndarray.{name}")
@@ -998,7 +1168,15 @@ class Interp:
         if isinstance(v, list):
             if name == "append":
                 return Builtin("list.append", lambda it, a, k, _v=v: _v.append(a[0]))
+            if name == "extend":
+                return Builtin("list.extend", lambda it, a, k, _v=v: _v.extend(it.iterate(a[0])))
+            if name == "index":
+                return Builtin("list.index", lambda it, a, k, _v=v: [_hashable(x) for x in _v].index(_hashable(a[0])))
             raise Unsupported(f"list.{name}")
+        if isinstance(v, tuple):
+            if name == "index":
+                return Builtin("tuple.index", lambda it, a, k, _v=v: [_hashable(x) for x in _v].index(_hashable(a[0])))
+            raise Unsupported(f"tuple.{name}")
         if isinstance(v, str):
             if name in ("format", "join", "strip", "lower", "upper"):
                 return Builtin("str." + name, lambda it, a, k: "<str>")
@@ -1015,6 +1193,21 @@ class Interp:
             raise Unsupported(f"attribute {name} of a scalar")
         if isinstance(v, Und):
             raise Unsupported(f"attribute of a value that depends on an undecided test ({v.desc})")
+        if isinstance(v, ClassRef):
+            if name in ("__name__", "__qualname__"):
+                return v.name
+            c, fn = v.find(self, name)
+            if fn is not None:
+                return self.make_func(fn, c.module, None, c)
+            raise Unsupported(f"class attribute {v.name}.{name}")
+        if isinstance(v, PyIter):
+            if name == "send" and isinstance(v.it, GenDriver):
+                return Builtin("generator.send", lambda it, a, k, _g=v.it: _gen_send(_g, a[0]))
+            if name == "close":
+                return Builtin("generator.close", lambda it, a, k: None)
+            raise Unsupported(f"iterator attribute {name}")
+        if isinstance(v, (Func, Bound)) and name in ("__name__", "__qualname__"):
+            return (v.func if isinstance(v, Bound) else v).name
         if isinstance(v, Opaque):
             return Opaque(v.name + "." + name)
         if v is None:
@@ -1116,8 +1309,19 @@ class Interp:
             self.assign_index(base, key, val, node)
         elif isinstance(target, (ast.Tuple, ast.List)):
             items = self.iterate(val)
-            if any(isinstance(t, ast.Starred) for t in target.elts):
-                raise Unsupported("starred assignment target")
+            stars = [i for i, t in enumerate(target.elts) if isinstance(t, ast.Starred)]
+            if stars:
+                if len(stars) > 1:
+                    raise Unsupported("two starred assignment targets")
+                k, after = stars[0], len(target.elts) - stars[0] - 1
+                if len(items) < len(target.elts) - 1:
+                    raise PyRaise("ValueError", "unpacking: not enough values")
+                for t, x in zip(target.elts[:k], items[:k]):
+                    self.assign(t, x, frame, node)
+                self.assign(target.elts[k].value, list(items[k:len(items) - after]), frame, node)
+                for t, x in zip(target.elts[k + 1:], items[len(items) - after:]):
+                    self.assign(t, x, frame, node)
+                return
             if len(items) != len(target.elts):
                 raise PyRaise("ValueError", "unpacking: wrong number of values")
             for t, x in zip(target.elts, items):
@@ -1141,7 +1345,15 @@ class Interp:
             return list(v.it)
         if isinstance(v, Und):
             raise Unsupported(f"iteration over a value that depends on an undecided test ({v.desc})")
+        if v is None or isinstance(v, (bool, int, Rat)) or (isinstance(v, Opaque) and v.inert):
+            raise PyRaise("TypeError", f"{v!r} is not iterable")
         raise Unsupported(f"iteration over {type(v).__name__}")
+
+    def iter(self, v):
+        """a Python-side iterator over an interpreted iterable; iterators are consumed lazily"""
+        if isinstance(v, PyIter):
+            return v.it
+        return iter(self.iterate(v))
 
     # ---- truth
     def truth(self, v):
@@ -1156,6 +1368,8 @@ class Interp:
         if isinstance(v, Rat):
             if v.is_const():
                 return v.const_value() != 0
+            if self.nonzero and len(v.n.t) == 1 and len(v.d.t) == 1 and all(str(a) in self.nonzero for a in _atoms_of(v)):
+                return True          # a monomial in symbols the rule declared non-zero (the time step)
             return Und(f"truth of {v!r}")
         if isinstance(v, (tuple, list, dict, str, range)):
             return len(v) > 0
@@ -1301,9 +1515,7 @@ class Interp:
             self.store_elem(arr.st, i, e, None)
 
     def exec_for(self, st, frame):
-        items = self.iterate(self.eval(st.iter, frame))
-        if self.guards and items:
-            pass
+        items = self.iter(self.eval(st.iter, frame))
         broke = False
         for x in items:
             self.assign(st.target, x, frame, st)
@@ -1487,6 +1699,10 @@ class Interp:
                 r = self.compare(op, left, right)
                 if isinstance(r, Und):
                     return r
+                if isinstance(r, NDArr):
+                    if len(node.ops) != 1:
+                        raise PyRaise("ValueError", "truth value of an array is ambiguous")
+                    return r
                 if not r:
                     return False
                 left = right
@@ -1524,40 +1740,60 @@ class Interp:
         if isinstance(node, ast.Lambda):
             fd = ast.FunctionDef(name="<lambda>", args=node.args, body=[ast.Return(value=node.body)], decorator_list=[], lineno=node.lineno)
             return self.make_func(fd, frame.module, frame, frame.cls)
-        if isinstance(node, (ast.ListComp, ast.GeneratorExp, ast.DictComp)):
+        if isinstance(node, (ast.ListComp, ast.GeneratorExp, ast.DictComp, ast.SetComp)):
             return self.eval_comp(node, frame)
         if isinstance(node, ast.Starred):
             raise Unsupported("starred expression")
+        if isinstance(node, ast.Yield):
+            fr = frame
+            while fr is not None and fr.gen is None:
+                fr = fr.parent if fr.func is None else None
+            if fr is None:
+                raise Unsupported("yield outside a generator function")
+            if self.guards:
+                raise Unsupported("yield under an undecided test")
+            return fr.gen.emit(None if node.value is None else self.eval(node.value, frame))
+        if isinstance(node, ast.NamedExpr):
+            v = self.eval(node.value, frame)
+            self.assign(node.target, v, frame, node)
+            return v
+        if isinstance(node, ast.Set):
+            return [self.eval(e, frame) for e in node.elts]
         raise Unsupported(f"expression {type(node).__name__}")
 
     def eval_comp(self, node, frame):
         if len(node.generators) != 1 or node.generators[0].is_async:
             raise Unsupported("nested comprehension")
         g = node.generators[0]
-        fr = Frame(frame.module, {}, frame, frame.cls, frame.selfobj, frame.func)
-        out = []
-        for x in self.iterate(self.eval(g.iter, frame)):
-            self.assign(g.target, x, fr, node)
-            ok = True
-            for c in g.ifs:
-                t = self.truth(self.eval(c, fr))
-                if isinstance(t, Und):
-                    raise Unsupported("comprehension filter depends on data")
-                ok = ok and t
-            if ok:
-                if isinstance(node, ast.DictComp):
-                    out.append((_hashable(self.eval(node.key, fr)), self.eval(node.value, fr)))
-                else:
-                    out.append(self.eval(node.elt, fr))
+        fr = Frame(frame.module, {}, frame, frame.cls, frame.selfobj, None)
+        source = self.iter(self.eval(g.iter, frame))        # the outermost iterable is evaluated at once, as in CPython
+
+        def produce():
+            for x in source:
+                self.assign(g.target, x, fr, node)
+                ok = True
+                for c in g.ifs:
+                    t = self.truth(self.eval(c, fr))
+                    if isinstance(t, Und):
+                        raise Unsupported("comprehension filter depends on data")
+                    ok = ok and t
+                if ok:
+                    if isinstance(node, ast.DictComp):
+                        yield (_hashable(self.eval(node.key, fr)), self.eval(node.value, fr))
+                    else:
+                        yield self.eval(node.elt, fr)
+        if isinstance(node, ast.GeneratorExp):
+            return PyIter(produce())                        # lazy: one element per next()
         if isinstance(node, ast.DictComp):
-            return dict(out)
-        return out if isinstance(node, ast.ListComp) else PyIter(iter(out))
+            return dict(produce())
+        return list(produce())
 
     def compare(self, op, a, b):
         if isinstance(op, (ast.Is, ast.IsNot)):
             if a is None or b is None or isinstance(a, bool) or isinstance(b, bool):
                 r = a is b
-            elif isinstance(a, (Builtin, Obj, Opaque, NDArr, dict, list, ClassRef)) or isinstance(b, (Builtin, Obj, Opaque, NDArr, dict, list, ClassRef)):
+            elif isinstance(a, (Builtin, Obj, Opaque, NDArr, dict, list, ClassRef, Func, slice)) or \
+                    isinstance(b, (Builtin, Obj, Opaque, NDArr, dict, list, ClassRef, Func, slice)):
                 r = a is b
             else:
                 raise Unsupported("`is` between values")
@@ -1570,6 +1806,17 @@ class Interp:
         if isinstance(a, Und) or isinstance(b, Und):
             return a if isinstance(a, Und) else b
         if isinstance(a, NDArr) or isinstance(b, NDArr):
+            if type(op) in PYCMP and all(isinstance(x, NDArr) or is_num(x) or isinstance(x, bool) for x in (a, b)):
+                shape = _broadcast(a.shape if isinstance(a, NDArr) else (), b.shape if isinstance(b, NDArr) else ())
+                ea, eb = _bc_entries(a, shape), _bc_entries(b, shape)
+                if all(not isinstance(x, Und) and R(x).is_const() for x in ea + eb):
+                    r = NDArr.new(shape, [bool(PYCMP[type(op)](R(x).const_value(), R(y).const_value())) for x, y in zip(ea, eb)])
+                    r.kind = "bool"
+                    return r
+                if self.assume_cmp is not None:
+                    r = self.assume_cmp(op, a, b)
+                    if r is not None:
+                        return r
             return Und(f"comparison of arrays")
         plain = (int, str, bool, tuple, type(None))
         if isinstance(a, plain) and isinstance(b, plain):
@@ -1585,6 +1832,10 @@ class Interp:
                 return True
             if isinstance(op, ast.NotEq) and ra.equals(rb):
                 return False
+            if self.assume_cmp is not None:
+                r = self.assume_cmp(op, a, b)
+                if r is not None:
+                    return r
             return Und(f"{ra!r} {type(op).__name__} {rb!r}")
         if isinstance(op, ast.Eq):
             return a is b
@@ -1621,6 +1872,24 @@ class Interp:
             else:
                 kwargs[k.arg] = v
         return self.call(f, args, kwargs, node)
+
+
+def _atoms_of(v):
+    """names of the symbols of a Rat (function atoms are reported as '<fn>')"""
+    out = []
+    for poly in (v.n, v.d):
+        for m in poly.t:
+            for a, _e in m:
+                d = F.atom_desc(a)
+                out.append(d[1] if d[0] == "s" else "<fn>")
+    return out
+
+
+def _gen_send(g, value):
+    try:
+        return g.send(value)
+    except StopIteration:
+        raise PyRaise("StopIteration")
 
 
 def _walk_own(fn):
@@ -1660,14 +1929,15 @@ def to_array(v):
         if any(isinstance(x, NDArr) for x in items):
             raise Unsupported("ragged array")
         return NDArr.new((len(items),), items)
-    if is_num(v):
+    if is_num(v) or isinstance(v, bool):
         return NDArr.new((), [v])
     if v is None or isinstance(v, (dict, Obj)) or (isinstance(v, Opaque) and v.inert):
         raise PyRaise("TypeError", f"a numeric array is expected, got {v!r}")
     raise Unsupported(f"array from {type(v).__name__}")
 
 
-BINOPS = {ast.Add: "+", ast.Sub: "-", ast.Mult: "*", ast.Div: "/", ast.FloorDiv: "//", ast.Mod: "%", ast.Pow: "**", ast.MatMult: "@"}
+BINOPS = {ast.Add: "+", ast.Sub: "-", ast.Mult: "*", ast.Div: "/", ast.FloorDiv: "//", ast.Mod: "%", ast.Pow: "**", ast.MatMult: "@",
+          ast.BitAnd: "&", ast.BitOr: "|"}
 PYCMP = {ast.Eq: lambda a, b: a == b, ast.NotEq: lambda a, b: a != b, ast.Lt: lambda a, b: a < b, ast.LtE: lambda a, b: a <= b,
          ast.Gt: lambda a, b: a > b, ast.GtE: lambda a, b: a >= b}
 
@@ -1679,12 +1949,27 @@ def _shape_arg(s):
     return (_as_int(s),)
 
 
+def _dtype_kind(a, k, pos=1):
+    dt = a[pos] if len(a) > pos else k.get("dtype")
+    if dt == "bool" or (isinstance(dt, Builtin) and dt.name == "bool"):
+        return "bool"
+    if isinstance(dt, Builtin) and dt.name == "complex":
+        raise Unsupported("complex arrays")
+    return None
+
+
 def _np_zeros(it, a, k):
-    return NDArr.full(_shape_arg(a[0] if a else k["shape"]), F.const(0))
+    kind = _dtype_kind(a, k)
+    r = NDArr.full(_shape_arg(a[0] if a else k["shape"]), False if kind == "bool" else F.const(0))
+    r.kind = kind
+    return r
 
 
 def _np_ones(it, a, k):
-    return NDArr.full(_shape_arg(a[0] if a else k["shape"]), F.const(1))
+    kind = _dtype_kind(a, k)
+    r = NDArr.full(_shape_arg(a[0] if a else k["shape"]), True if kind == "bool" else F.const(1))
+    r.kind = kind
+    return r
 
 
 _EMPTY = [0]
@@ -1748,9 +2033,122 @@ def _np_atleast(nd):
 
 def _np_array(it, a, k):
     v = to_array(a[0])
-    if k.get("copy") is False:
+    kind = _dtype_kind(a, k)
+    if k.get("copy") is False and kind is None:
         return v
-    return v.copy()
+    r = v.copy()
+    if kind == "bool":
+        r = NDArr.new(r.shape, [it.truth(x) for x in r.flat()])
+        if any(isinstance(x, Und) for x in r.flat()):
+            raise Unsupported("boolean array from symbolic data")
+        r.kind = "bool"
+    return r
+
+
+def _np_atleast_1d(it, a, k):
+    one = _np_atleast(1)
+    if len(a) == 1:
+        return one(it, a, k)
+    return [one(it, [x], k) for x in a]
+
+
+def _np_nonzero(it, a, k):
+    v = to_array(a[0])
+    fl = v.flat()
+    if any(isinstance(x, Und) or not (isinstance(x, bool) or R(x).is_const()) for x in fl):
+        raise Unsupported("nonzero() of an array with symbolic entries")
+    hits = [idx for idx, x in zip(itertools.product(*[range(n) for n in v.shape]), fl) if (x if isinstance(x, bool) else R(x).const_value() != 0)]
+    return tuple(NDArr.new((len(hits),), [h[ax] for h in hits]) for ax in range(v.ndim))
+
+
+def _np_ix(it, a, k):
+    out = []
+    for ax, x in enumerate(a):
+        if isinstance(x, slice):
+            raise PyRaise("TypeError", "np.ix_ of a slice")
+        v = _mask_positions(to_array(x))
+        if v.ndim != 1:
+            raise PyRaise("ValueError", "np.ix_: cross index must be 1 dimensional")
+        sh = [1] * len(a)
+        sh[ax] = v.size
+        out.append(v.copy().reshape(sh))
+    return tuple(out)
+
+
+def _np_diff(it, a, k):
+    v = to_array(a[0])
+    if v.ndim != 1:
+        raise Unsupported("np.diff of a non 1-d array")
+    fl = v.flat()
+    return NDArr.new((max(len(fl) - 1, 0),), [s_bin("-", y, x) for x, y in zip(fl, fl[1:])])
+
+
+def _np_all(it, a, k):
+    return _arr_all(it, to_array(a[0]), [], {})
+
+
+def _np_any(it, a, k):
+    return _arr_any(it, to_array(a[0]), [], {})
+
+
+def _np_size(it, a, k):
+    v = a[0]
+    if isinstance(v, (NDArr, list, tuple)):
+        return to_array(v).size
+    if isinstance(v, slice):
+        raise PyRaise("TypeError", "np.size of a slice")       # numpy returns 1; nothing in the analysed code relies on it
+    return 1
+
+
+_FRESH = [0]
+
+
+def _fresh(name):
+    _FRESH[0] += 1
+    return F.sym(f"{name}{_FRESH[0]}")
+
+
+def _np_cond(it, a, k):
+    return _fresh("cond")
+
+
+def _np_finfo(it, a, k):
+    return Obj(None, "finfo", eps=F.sym("eps_machine"), tiny=F.sym("tiny_machine"), max=F.sym("max_machine"))
+
+
+def _np_copy(it, a, k):
+    return to_array(a[0]).copy()
+
+
+def _identity_decorator(it, a, k):
+    """numba.njit / numba.jit: compilation does not change what the function computes"""
+    if a and isinstance(a[0], (Func, Bound)):
+        return a[0]
+    return Builtin("decorator", lambda it_, a_, k_: a_[0])
+
+
+def _reduce(it, a, k):
+    f, seq = a[0], it.iter(a[1])
+    if len(a) > 2:
+        acc = a[2]
+    else:
+        try:
+            acc = next(seq)
+        except StopIteration:
+            raise PyRaise("TypeError", "reduce() of empty iterable with no initial value")
+    for x in seq:
+        acc = it.call(f, [acc, x], {}, None)
+    return acc
+
+
+def _iop(opname):
+    """operator.iadd & co: in place on arrays (aliases see the change), a new value otherwise"""
+    def f(it, a, k):
+        if isinstance(a[0], NDArr):
+            it._inplace(a[0], opname, a[1], None)
+            return a[0]
+        return it.binop(opname, a[0], a[1])
+    return f
 
 
 def _np_asarray(it, a, k):
@@ -1772,9 +2170,11 @@ def _np_dot(it, a, k):
 def _la_solve(it, a, k):
     A = a[0] if a else k["a"]
     B = a[1] if len(a) > 1 else k["b"]
+    A = to_array(A)
+    inv = it.inverse_of(A) if it is not None else inverse(A)
     if k.get("transposed"):
-        A = A.T
-    return matmul(inverse(to_array(A)), to_array(B))
+        inv = inv.T
+    return matmul(inv, to_array(B))
 
 
 def _la_lu_factor(it, a, k):
@@ -1789,7 +2189,7 @@ def _la_lu_solve(it, a, k):
     if not isinstance(lu, LU):
         raise PyRaise("TypeError", "lu_solve: first argument is not the result of lu_factor")
     t = _as_int(trans)
-    inv = lu.inv()
+    inv = lu.inv(it)
     if t in (1, 2):
         inv = inv.T
     elif t != 0:
@@ -1798,7 +2198,7 @@ def _la_lu_solve(it, a, k):
 
 
 def _la_inv(it, a, k):
-    return inverse(to_array(a[0]))
+    return it.inverse_of(a[0]) if it is not None else inverse(to_array(a[0]))
 
 
 def _simple_namespace(it, a, k):
@@ -1825,7 +2225,29 @@ EXTERNALS = {
     "numpy.zeros_like": _like(_np_zeros), "numpy.ones_like": _like(_np_ones), "numpy.empty_like": _like(_np_empty),
     "numpy.eye": _np_eye, "numpy.identity": _np_eye, "numpy.diag": _np_diag,
     "numpy.transpose": _np_transpose, "numpy.swapaxes": _np_swapaxes,
-    "numpy.atleast_1d": _np_atleast(1), "numpy.atleast_2d": _np_atleast(2),
+    "numpy.atleast_1d": _np_atleast_1d, "numpy.atleast_2d": _np_atleast(2),
+    "numpy.nonzero": _np_nonzero, "numpy.flatnonzero": lambda it, a, k: _np_nonzero(it, [to_array(a[0]).reshape((-1,))], k)[0],
+    "numpy.ix_": _np_ix, "numpy.diff": _np_diff, "numpy.all": _np_all, "numpy.any": _np_any, "numpy.size": _np_size,
+    "numpy.iscomplexobj": lambda it, a, k: False, "numpy.isrealobj": lambda it, a, k: True,
+    "numpy.issubdtype": lambda it, a, k: a[0] == a[1], "numpy.linalg.cond": _np_cond, "numpy.finfo": _np_finfo, "numpy.copy": _np_copy,
+    "numpy.abs": lambda it, a, k: _b_abs(it, a, k), "numpy.absolute": lambda it, a, k: _b_abs(it, a, k),
+    "numpy.ndim": lambda it, a, k: to_array(a[0]).ndim, "numpy.shape": lambda it, a, k: to_array(a[0]).shape,
+    "numba.njit": _identity_decorator, "numba.jit": _identity_decorator,
+    "functools.reduce": _reduce,
+    "operator.iadd": _iop("+"), "operator.isub": _iop("-"), "operator.imul": _iop("*"), "operator.itruediv": _iop("/"),
+    "operator.imatmul": lambda it, a, k: it.binop("@", a[0], a[1]),
+    "operator.getitem": lambda it, a, k: it.index(a[0], a[1]),
+    "operator.neg": lambda it, a, k: ew_bin("-", 0, a[0]), "operator.not_": lambda it, a, k: not it.truth(a[0]),
+    "operator.attrgetter": lambda it, a, k: Builtin("attrgetter", lambda it_, a_, k_, _n=a: _attrgetter(it_, _n, a_[0])),
+    "operator.itemgetter": lambda it, a, k: Builtin("itemgetter", lambda it_, a_, k_, _n=a: _itemgetter(it_, _n, a_[0])),
+    "itertools.chain": lambda it, a, k: PyIter(x for seq in a for x in it.iter(seq)),
+    "itertools.islice": lambda it, a, k: PyIter(itertools.islice(it.iter(a[0]), *[None if x is None else _as_int(x) for x in a[1:]])),
+    "itertools.repeat": lambda it, a, k: PyIter(itertools.repeat(a[0], *[_as_int(x) for x in a[1:]])),
+    "itertools.count": lambda it, a, k: PyIter(itertools.count(*[_as_int(x) for x in a])),
+    "itertools.starmap": lambda it, a, k: PyIter(it.call(a[0], list(it.iterate(t)), {}, None) for t in it.iter(a[1])),
+    "itertools.accumulate": lambda it, a, k: _accumulate(it, a, k),
+    "functools.partial": lambda it, a, k: Builtin("partial", lambda it_, a_, k_, _f=a[0], _a=list(a[1:]), _k=dict(k): it_.call(_f, _a + list(a_), {**_k, **k_}, None)),
+    "warnings.warn": None, "copy.copy": lambda it, a, k: _shallow_copy(a[0]), "copy.deepcopy": lambda it, a, k: _deep_copy(a[0]),
     "numpy.array": _np_array, "numpy.asarray": _np_asarray, "numpy.ascontiguousarray": _np_asarray, "numpy.asfortranarray": _np_asarray,
     "numpy.arange": _np_arange, "numpy.dot": _np_dot, "numpy.matmul": _op("@"), "numpy.copyto": lambda it, a, k: it._inplace_set(a[0], a[1]),
     "numpy.multiply": _op("*"), "numpy.add": _op("+"), "numpy.subtract": _op("-"), "numpy.divide": _op("/"), "numpy.true_divide": _op("/"),
@@ -1835,7 +2257,65 @@ EXTERNALS = {
     "operator.matmul": _op("@"), "operator.mul": _op("*"), "operator.add": _op("+"), "operator.sub": _op("-"), "operator.truediv": _op("/"),
     "types.SimpleNamespace": _simple_namespace,
 }
-EXTERNAL_VALUES = {"numpy.newaxis": None, "numpy.float64": FLOAT, "numpy.complex128": COMPLEX}
+EXTERNALS["warnings.warn"] = lambda it, a, k: None
+LENIENT = {"warnings.warn"}
+EXTERNAL_VALUES = {"numpy.newaxis": None, "numpy.float64": FLOAT, "numpy.complex128": COMPLEX, "numpy.bool_": "bool", "numpy.pi": F.sym("pi"),
+                   "numpy.ndarray": Opaque("numpy.ndarray")}
+
+
+def _attrgetter(it, names, obj):
+    vals = []
+    for n in names:
+        v = obj
+        for part in n.split("."):
+            v = it.getattr(v, part, None)
+        vals.append(v)
+    return vals[0] if len(vals) == 1 else tuple(vals)
+
+
+def _itemgetter(it, keys, obj):
+    vals = [it.index(obj, key) for key in keys]
+    return vals[0] if len(vals) == 1 else tuple(vals)
+
+
+def _accumulate(it, a, k):
+    f = a[1] if len(a) > 1 else k.get("func")
+
+    def gen():
+        acc = _MISSING
+        for x in it.iter(a[0]):
+            acc = x if acc is _MISSING else (it.binop("+", acc, x) if f is None else it.call(f, [acc, x], {}, None))
+            yield acc
+    return PyIter(gen())
+
+
+def _shallow_copy(v):
+    if isinstance(v, NDArr):
+        return v.copy()
+    if isinstance(v, dict):
+        return dict(v)
+    if isinstance(v, list):
+        return list(v)
+    if isinstance(v, Obj):
+        o = Obj(v.cls, v.label, **v.attrs)
+        o.complete, o.overrides, o.absent = v.complete, dict(v.overrides), set(v.absent)
+        return o
+    if isinstance(v, (tuple, int, Rat, str, bool)) or v is None:
+        return v
+    raise Unsupported(f"copy of {type(v).__name__}")
+
+
+def _deep_copy(v):
+    if isinstance(v, dict):
+        return {kk: _deep_copy(x) for kk, x in v.items()}
+    if isinstance(v, list):
+        return [_deep_copy(x) for x in v]
+    if isinstance(v, tuple):
+        return tuple(_deep_copy(x) for x in v)
+    if isinstance(v, Obj):
+        raise Unsupported("deepcopy of an object")
+    return _shallow_copy(v)
+
 
 
 def _arr_any(it, v, a, k):
@@ -1861,7 +2341,49 @@ def _arr_reshape(it, v, a, k):
     return v.reshape([_as_int(x) for x in sh])
 
 
+def _arr_extreme(which):
+    def f(it, v, a, k):
+        axis = a[0] if a else k.get("axis")
+        if axis is not None:
+            ax = _as_int(axis) % v.ndim
+            moved = v.transpose([ax] + [i for i in range(v.ndim) if i != ax])
+            rest = moved.shape[1:]
+            ents, stride = moved.flat(), _prod(rest)
+            return NDArr.new(rest, [f(it, NDArr.new((moved.shape[0],), ents[j::stride]), [], {}) for j in range(stride)])
+        fl = v.flat()
+        if not fl:
+            raise PyRaise("ValueError", "zero-size array to reduction operation")
+        if any(isinstance(x, Und) for x in fl):
+            raise Unsupported("extreme of undecided values")
+        if len(fl) == 1:
+            return fl[0]
+        if all(isinstance(x, bool) or R(x).is_const() for x in fl):
+            vals = [int(x) if isinstance(x, bool) else R(x).const_value() for x in fl]
+            return F.const(max(vals) if which == "max" else min(vals))
+        return F.fn(which, *[R(x) for x in fl])
+    return f
+
+
+def _arr_sum(it, v, a, k):
+    axis = a[0] if a else k.get("axis")
+    if axis is None:
+        tot = 0
+        for x in v.flat():
+            tot = s_bin("+", tot, x)
+        return tot
+    ax = _as_int(axis) % v.ndim
+    moved = v.transpose([ax] + [i for i in range(v.ndim) if i != ax])
+    tot = None
+    for i in range(moved.shape[0]):
+        tot = moved[i] if tot is None else ew_bin("+", tot, moved[i])
+    return tot
+
+
 ARRAY_METHODS = {
+    "max": _arr_extreme("max"), "min": _arr_extreme("min"), "sum": _arr_sum,
+    "nonzero": lambda it, v, a, k: _np_nonzero(it, [v], {}),
+    "tolist": lambda it, v, a, k: v.tolist(),
+    "fill": lambda it, v, a, k: it._inplace_set(v, a[0]),
     "copy": lambda it, v, a, k: v.copy(),
     "any": _arr_any, "all": _arr_all,
     "ravel": lambda it, v, a, k: v.reshape((-1,)),
@@ -1900,15 +2422,121 @@ def _b_range(it, a, k):
 
 def _b_enumerate(it, a, k):
     start = _as_int(a[1] if len(a) > 1 else k.get("start", 0))
-    return [(start + i, x) for i, x in enumerate(it.iterate(a[0]))]
+    return PyIter(enumerate(it.iter(a[0]), start))
 
 
 def _b_zip(it, a, k):
-    return [tuple(t) for t in zip(*[it.iterate(x) for x in a])]
+    if k.get("strict"):
+        raise Unsupported("zip(strict=True)")
+    return PyIter(zip(*[it.iter(x) for x in a]))
+
+
+def _b_map(it, a, k):
+    return PyIter(it.call(a[0], list(t), {}, None) for t in zip(*[it.iter(x) for x in a[1:]]))
+
+
+def _b_filter(it, a, k):
+    def gen():
+        for x in it.iter(a[1]):
+            t = it.truth(x if a[0] is None else it.call(a[0], [x], {}, None))
+            if isinstance(t, Und):
+                raise Unsupported("filter() on symbolic data")
+            if t:
+                yield x
+    return PyIter(gen())
 
 
 def _b_iter(it, a, k):
+    if isinstance(a[0], PyIter):
+        return a[0]
     return PyIter(iter(it.iterate(a[0])))
+
+
+def _b_getattr(it, a, k):
+    if not isinstance(a[1], str):
+        raise Unsupported("getattr with a computed name")
+    try:
+        return it.getattr(a[0], a[1], None)
+    except PyRaise as e:
+        if e.name == "AttributeError" and len(a) > 2:
+            return a[2]
+        raise
+
+
+def _b_setattr(it, a, k):
+    if not isinstance(a[1], str):
+        raise Unsupported("setattr with a computed name")
+    it.setattr(a[0], a[1], a[2])
+
+
+def _b_hasattr(it, a, k):
+    try:
+        it.getattr(a[0], a[1], None)
+        return True
+    except PyRaise as e:
+        if e.name == "AttributeError" and e.genuine:
+            return False
+        raise
+
+
+def _b_type(it, a, k):
+    v = a[0]
+    if isinstance(v, Obj) and v.cls is not None:
+        return v.cls
+    if isinstance(v, NDArr):
+        return EXTERNAL_VALUES["numpy.ndarray"]
+    for nm, t in (("list", list), ("tuple", tuple), ("dict", dict), ("str", str), ("bool", bool), ("int", int)):
+        if isinstance(v, t):
+            return PY_BUILTINS[nm]
+    if isinstance(v, Rat):
+        return FLOAT
+    raise Unsupported(f"type() of {type(v).__name__}")
+
+
+_IDS = [1000]
+
+
+def _b_id(it, a, k):
+    _IDS[0] += 1
+    return _IDS[0]          # identities are only stored, never compared by the analysed solvers
+
+
+def _b_minmax(which):
+    def f(it, a, k):
+        items = it.iterate(a[0]) if len(a) == 1 else list(a)
+        if not items:
+            raise PyRaise("ValueError", f"{which}() of an empty sequence")
+        if all(isinstance(x, (int, bool)) or (isinstance(x, Rat) and x.is_const()) for x in items):
+            key = lambda x: R(x).const_value()
+            return (max if which == "max" else min)(items, key=key)
+        raise Unsupported(f"{which}() of symbolic values")
+    return f
+
+
+def _b_anyall(which):
+    def f(it, a, k):
+        und = None
+        for x in it.iter(a[0]):
+            t = it.truth(x)
+            if isinstance(t, Und):
+                und = t
+            elif t and which == "any":
+                return True
+            elif not t and which == "all":
+                return False
+        if und is not None:
+            return und
+        return which == "all"
+    return f
+
+
+def _b_sorted(it, a, k):
+    items = it.iterate(a[0])
+    if k.get("key") is not None:
+        raise Unsupported("sorted(key=...)")
+    if all(isinstance(x, (int, str)) for x in items):
+        return sorted(items, reverse=bool(k.get("reverse", False)))
+    raise Unsupported("sorted() of symbolic values")
 
 
 def _b_next(it, a, k):
@@ -1957,6 +2585,12 @@ def _b_isinstance(it, a, k):
             res = res or isinstance(v, str)
         elif nm == "int" and not isinstance(v, Rat):
             res = res or (isinstance(v, int) and not isinstance(v, bool))
+        elif nm == "bool":
+            res = res or isinstance(v, bool)
+        elif nm == "float":
+            res = res or isinstance(v, Rat)
+        elif isinstance(c, ClassRef):
+            res = res or (isinstance(v, Obj) and v.cls is not None and any(x.node is c.node for x in v.cls.mro(it)))
         else:
             raise Unsupported(f"isinstance(..., {nm})")
     return res
@@ -1984,7 +2618,16 @@ PY_BUILTINS = {
     "str": Builtin("str", lambda it, a, k: "<str>"),
     "bool": Builtin("bool", lambda it, a, k: it.truth(a[0]) if a else False),
     "reversed": Builtin("reversed", lambda it, a, k: list(it.iterate(a[0]))[::-1]),
-    "print": Builtin("print", lambda it, a, k: None),
+    "print": Builtin("print", lambda it, a, k: None, lenient=True),
+    "getattr": Builtin("getattr", _b_getattr), "setattr": Builtin("setattr", _b_setattr), "hasattr": Builtin("hasattr", _b_hasattr),
+    "type": Builtin("type", _b_type), "id": Builtin("id", _b_id), "map": Builtin("map", _b_map), "filter": Builtin("filter", _b_filter),
+    "min": Builtin("min", _b_minmax("min")), "max": Builtin("max", _b_minmax("max")),
+    "any": Builtin("any", _b_anyall("any")), "all": Builtin("all", _b_anyall("all")), "sorted": Builtin("sorted", _b_sorted),
+    "callable": Builtin("callable", lambda it, a, k: isinstance(a[0], (Func, Bound, Builtin, Opaque, ClassRef))),
+    "object": Opaque("object"), "Ellipsis": Ellipsis, "NotImplemented": Opaque("NotImplemented"),
+    "RuntimeWarning": Opaque("RuntimeWarning"), "UserWarning": Opaque("UserWarning"), "DeprecationWarning": Opaque("DeprecationWarning"),
+    "IndexError": Opaque("IndexError"), "KeyError": Opaque("KeyError"), "AttributeError": Opaque("AttributeError"),
+    "ZeroDivisionError": Opaque("ZeroDivisionError"), "ArithmeticError": Opaque("ArithmeticError"), "ImportError": Opaque("ImportError"),
     "True": True, "False": False, "None": None,
     "StopIteration": Opaque("StopIteration"), "ValueError": Opaque("ValueError"), "TypeError": Opaque("TypeError"),
     "RuntimeError": Opaque("RuntimeError"), "NotImplementedError": Opaque("NotImplementedError"), "Exception": Opaque("Exception"),
